@@ -43,6 +43,7 @@ type VerifDump struct {
 	RewriteInProg  bool
 	LatestSnapshot int64
 	ChangeCount    uint64 // snapshot engine's write counter (hidden state that decides the automatic trigger)
+	PubSub         []string // subscription table: "<channel>|pattern=<bool>|<conn>,<conn>..." sorted
 }
 
 // VerifDumpState returns a deep, sorted copy of the private state.  Must be
@@ -62,6 +63,7 @@ func (server *SugarDB) VerifDumpState(connNames map[*net.Conn]string) VerifDump 
 		RewriteInProg:  server.rewriteAOFInProgress.Load(),
 		LatestSnapshot: server.latestSnapshotMilliseconds.Load(),
 	}
+	d.PubSub = server.verifPubSubTable()
 	if server.snapshotEngine != nil {
 		if f := reflect.ValueOf(server.snapshotEngine).Elem().FieldByName("changeCount"); f.IsValid() {
 			for f.Kind() == reflect.Struct && f.NumField() > 0 {
@@ -287,4 +289,36 @@ func (server *SugarDB) VerifCopyDatasetTo(dst *SugarDB) error {
 		}
 	}
 	return nil
+}
+
+// verifPubSubTable renders the pub/sub subscription table (private to package pubsub) by reflection.
+func (server *SugarDB) verifPubSubTable() []string {
+	out := []string{}
+	if server.pubSub == nil {
+		return out
+	}
+	ids := map[uintptr]string{}
+	for c, info := range server.connInfo.tcpClients {
+		ids[reflect.ValueOf(c).Pointer()] = fmt.Sprintf("c%d", info.Id-1)
+	}
+	chs := reflect.ValueOf(server.pubSub).Elem().FieldByName("channels")
+	for i := 0; i < chs.Len(); i++ {
+		ch := chs.Index(i).Elem()
+		name := ch.FieldByName("name").String()
+		isPat := !ch.FieldByName("pattern").IsNil()
+		var subs []string
+		it := ch.FieldByName("subscribers").MapRange()
+		for it.Next() {
+			p := it.Key().Pointer()
+			if n, ok := ids[p]; ok {
+				subs = append(subs, n)
+			} else {
+				subs = append(subs, "embedded-or-unknown")
+			}
+		}
+		sort.Strings(subs)
+		out = append(out, fmt.Sprintf("%s|pattern=%v|%v", name, isPat, subs))
+	}
+	sort.Strings(out)
+	return out
 }
